@@ -328,3 +328,137 @@ func VH_C02_unencrypted() {
 	vAssert("state-kept", vAll(len(toSend) == 0))
 	vReach("end")
 }
+
+// vhAKESnap: projection of the key-exchange context.
+type vhAKESnapshot struct {
+	hasAKE                 bool
+	state                  int
+	egx, hgx, exp          []byte
+	r                      [16]byte
+	hasOurs, hasTheirs     bool
+	ours, theirs           []byte
+	version                uint16
+	msgState               msgState
+	theirKey               PublicKey
+	ourTag, theirTag       uint32
+	lastStateChangeIsZero  bool
+}
+
+func vhAKESnap(c *Conversation) vhAKESnapshot {
+	s := vhAKESnapshot{msgState: c.msgState, theirKey: c.theirKey, ourTag: c.ourInstanceTag, theirTag: c.theirInstanceTag}
+	if c.version != nil {
+		s.version = c.version.protocolVersion()
+	}
+	if c.ake != nil {
+		s.hasAKE = true
+		s.state = c.ake.state.identity()
+		s.egx, s.hgx, s.exp = makeCopy(c.ake.encryptedGx), makeCopy(c.ake.xhashedGx), makeCopy(c.ake.secretExponent)
+		s.r = c.ake.r
+		if c.ake.ourPublicValue != nil {
+			s.hasOurs, s.ours = true, c.ake.ourPublicValue.Bytes()
+		}
+		if c.ake.theirPublicValue != nil {
+			s.hasTheirs, s.theirs = true, c.ake.theirPublicValue.Bytes()
+		}
+	}
+	return s
+}
+
+func vhSameAKE(x, y *vhAKESnapshot) bool {
+	ok := vAll(x.version == y.version, x.msgState == y.msgState, x.theirKey == y.theirKey, x.ourTag == y.ourTag, x.theirTag == y.theirTag)
+	// a missing context behaves like a fresh one in state NONE
+	none := authStateNone{}.identity()
+	xNone := !x.hasAKE || x.state == none
+	yNone := !y.hasAKE || y.state == none
+	if xNone != yNone {
+		return false
+	}
+	if !xNone {
+		ok = vAll(ok, x.state == y.state, len(x.egx) == len(y.egx), len(x.hgx) == len(y.hgx), len(x.exp) == len(y.exp),
+			x.r == y.r, x.hasOurs == y.hasOurs, x.hasTheirs == y.hasTheirs)
+		if len(x.egx) == len(y.egx) {
+			ok = vAll(ok, vBytesEq(x.egx, y.egx))
+		}
+		if len(x.hgx) == len(y.hgx) {
+			ok = vAll(ok, vBytesEq(x.hgx, y.hgx))
+		}
+		if len(x.exp) == len(y.exp) {
+			ok = vAll(ok, vBytesEq(x.exp, y.exp))
+		}
+		if x.hasOurs && y.hasOurs {
+			ok = vAll(ok, len(x.ours) == len(y.ours))
+			if len(x.ours) == len(y.ours) {
+				ok = vAll(ok, vBytesEq(x.ours, y.ours))
+			}
+		}
+		if x.hasTheirs && y.hasTheirs {
+			ok = vAll(ok, len(x.theirs) == len(y.theirs))
+			if len(x.theirs) == len(y.theirs) {
+				ok = vAll(ok, vBytesEq(x.theirs, y.theirs))
+			}
+		}
+	}
+	return ok
+}
+
+// H-C06-rejected-ake: an AKE or data message with an arbitrary body that is
+// rejected (no plaintext, nothing to send) in any authentication state of a
+// not yet encrypted conversation leaves version, tags and the key-exchange
+// context as they were.
+//
+// vh: prop=C06 expect=end,rejected unwind=300 timeout=60000
+func VH_C06_rejected_ake() {
+	vBigStrip(0)
+	p := vhNewParty(1, true)
+	c := p.c
+	c.Policies.add(allowV2)
+	st := vChoose("state", 5)
+	committed := st != 0 // a conversation that has not talked yet has no committed version
+	if !committed {
+		c.version = nil
+		c.ourCurrentKey = nil
+	}
+	switch st {
+	case 0:
+		c.ake = nil
+	case 1:
+		c.ake = &ake{state: authStateNone{}}
+	case 2:
+		c.ake = &ake{state: authStateAwaitingDHKey{}}
+		c.ake.secretExponent = secretKeyValue(vBytes("exp", 40))
+		c.ake.ourPublicValue = vBig("gx", 1536)
+		copy(c.ake.r[:], vBytes("r", 16))
+		c.ake.encryptedGx = vBytes("egx", 196)
+	case 3:
+		c.ake = &ake{state: authStateAwaitingRevealSig{}}
+		c.ake.secretExponent = secretKeyValue(vBytes("exp", 40))
+		c.ake.ourPublicValue = vBig("gy", 1536)
+		c.ake.encryptedGx = vBytes("egx", 196)
+		c.ake.xhashedGx = vBytes("hgx", 32)
+	case 4:
+		c.ake = &ake{state: authStateAwaitingSig{}}
+		c.ake.secretExponent = secretKeyValue(vBytes("exp", 40))
+		c.ake.ourPublicValue = vBig("gx", 1536)
+		c.ake.theirPublicValue = vBig("gy", 1536)
+	}
+	// message: header (version 2 or 3, any of the five types) + arbitrary 10-byte body
+	ver := []uint16{2, 3}[vChoose("msgver", 2)]
+	mt := []byte{msgTypeDHCommit, msgTypeDHKey, msgTypeRevealSig, msgTypeSig, msgTypeData}[vChoose("msgtype", 5)]
+	var msg []byte
+	msg = AppendShort(msg, ver)
+	msg = append(msg, mt)
+	if ver == 3 {
+		msg = AppendWord(msg, vhTagA)
+		msg = AppendWord(msg, vhTagB)
+	}
+	msg = append(msg, vBytes("body", 10)...)
+	before := vhAKESnap(c)
+	plain, toSend, err := c.receiveDecoded(msg)
+	vObserve("ake-reject", st, int(ver), int(mt), plain, len(toSend), err == nil)
+	if plain == nil && len(toSend) == 0 {
+		vReach("rejected")
+		after := vhAKESnap(c)
+		vAssert("O1-context-unchanged", vhSameAKE(&before, &after))
+	}
+	vReach("end")
+}
